@@ -267,7 +267,11 @@ fn token_offsets(text: &str) -> Vec<(usize, usize)> {
 
 /// "Syntax Error at L:C : text :" -> (L, C, text)
 fn parse_syntax_error(msg: &str) -> Option<(usize, usize, String)> {
-    let rest = msg.split("Syntax Error at ").nth(1)?;
+    // the driver's own report of a jump to a label that is defined nowhere has the same three parts
+    let rest = match msg.split("Syntax Error at ").nth(1) {
+        Some(r) => r,
+        None => msg.split(" used but not defined at ").nth(1)?,
+    };
     let first = rest.lines().next()?;
     let mut it = first.splitn(2, ':');
     let l: usize = it.next()?.trim().parse().ok()?;
@@ -357,7 +361,9 @@ pub fn eval_corrupt(c: &(PCase16, u16, u8)) -> CaseOutcome {
 fn exact_site_class(m: &crate::c14::Mutant) -> bool {
     let inserted = m.what.starts_with("inserted '") || m.what.starts_with("data definition '") || m.what.starts_with("'");
     if !inserted {
-        return m.class == "jump-to-data-label";
+        // a jump retargeted in place; other mutants of that class (a macro redefined with an invalid body) are detected
+        // where the macro is used, not where the offending text stands
+        return m.class == "jump-to-data-label" && m.what.contains("retargeted to data label");
     }
     // a bare unknown word is only detected at the following token, possibly on the next line: not used
     let stmt = m.text.split('\n').nth(m.site).unwrap_or("");
